@@ -1,0 +1,78 @@
+//go:build verif
+
+package kafka
+
+import (
+	"context"
+	"errors"
+	"io"
+	"strconv"
+	"strings"
+	"syscall"
+)
+
+// Helpers of the Writer event hooks (build tag `verif` only; see verif_writer_off.go for the no-op twins).
+
+// verifErrCode renders an error as a small stable token: "ok", "k<kafka error code>", the transient
+// network errors by name, "deadline", "closed", "ctx" or "other".  It does not use isTemporary /
+// isTransientNetworkError: the classification is the model's business.
+func verifErrCode(err error) string {
+	var ke Error
+	switch {
+	case err == nil:
+		return "ok"
+	case errors.As(err, &ke):
+		return "k" + strconv.Itoa(int(ke))
+	case errors.Is(err, io.ErrUnexpectedEOF):
+		return "eof"
+	case errors.Is(err, syscall.ECONNREFUSED):
+		return "connrefused"
+	case errors.Is(err, syscall.ECONNRESET):
+		return "connreset"
+	case errors.Is(err, syscall.EPIPE):
+		return "epipe"
+	case errors.Is(err, context.DeadlineExceeded):
+		return "deadline"
+	case errors.Is(err, context.Canceled):
+		return "ctx"
+	case errors.Is(err, io.ErrClosedPipe):
+		return "closed"
+	}
+	return "other"
+}
+
+// verifWriteErrors renders a WriteErrors value position by position ("ok,k3,ok").
+func verifWriteErrors(werr WriteErrors) string {
+	s := make([]string, len(werr))
+	for i, e := range werr {
+		s[i] = verifErrCode(e)
+	}
+	if len(s) == 0 {
+		return "-"
+	}
+	return strings.Join(s, ",")
+}
+
+// VerifID returns the recorder's id ("#n") of a pointer-like value, assigning one if it is new, so that a
+// harness can name the objects it owns (e.g. &msgs[0] identifies a WriteMessages call).  Call after VerifStart.
+func VerifID(a interface{}) string {
+	verifRec.mu.Lock()
+	defer verifRec.mu.Unlock()
+	if verifRec.ids == nil {
+		verifRec.ids = map[uintptr]int{}
+	}
+	return verifArg(a)
+}
+
+// VerifWriterEmit lets the writer harness add environment events (fake broker decisions) to the same totally
+// ordered log as the library's hook events.
+func VerifWriterEmit(kind string, args ...interface{}) { verifEvent(kind, args...) }
+
+// VerifErrCode exposes the error rendering to the harness (results of WriteMessages, Completion arguments).
+func VerifErrCode(err error) string {
+	var we WriteErrors
+	if errors.As(err, &we) {
+		return "werr:" + verifWriteErrors(we)
+	}
+	return verifErrCode(err)
+}
